@@ -455,4 +455,73 @@ def rule_e(ctx):
                 'configured with' % (writers[0][0].short, writers[0][1].lineno, a))
 
 
-RULES = [('C16.a', rule_a), ('C16.b', rule_b), ('C16.c', rule_c), ('C16.d', rule_d), ('C16.b', rule_plumbing), ('C16.e', rule_e), ('C02.a', rule_setup_layout)]
+def _content_failures(repo, f, depth=0, seen=None):
+    """Operations in f (and in the repository functions it calls, three levels deep) that raise for some content of a
+    received frame: strict text decoding, number parsing, JSON parsing, indexing by position, an explicit raise.
+    A deny-list: each listed form does fail on some input, anything else is not judged."""
+    seen = seen if seen is not None else set()
+    if f in seen:
+        return []
+    seen.add(f)
+    out = []
+    m = f.module
+    for n in walk_local(f.node):
+        if isinstance(n, ast.Raise):
+            out.append('%s raises' % f.name)
+        elif isinstance(n, ast.Subscript) and isinstance(n.ctx, ast.Load) and not isinstance(n.slice, ast.Slice) and \
+                not isinstance(n.value, ast.Name):
+            # x.attr[i] on frame content: IndexError / KeyError (annotations and tables by name are not content)
+            out.append('%s indexes %s' % (f.name, ast.unparse(n)))
+        elif isinstance(n, ast.Call):
+            fn = n.func
+            kw = {k.arg: k.value for k in n.keywords}
+            if isinstance(fn, ast.Attribute) and fn.attr == 'decode':
+                errors = kw.get('errors') or (n.args[1] if len(n.args) > 1 else None)
+                if not (isinstance(errors, ast.Constant) and errors.value in ('replace', 'ignore', 'backslashreplace',
+                                                                              'surrogateescape')):
+                    out.append('%s decodes %s strictly' % (f.name, ast.unparse(fn.value)))
+            elif isinstance(fn, ast.Name) and fn.id in ('int', 'float') and n.args and \
+                    not isinstance(n.args[0], ast.Constant):
+                out.append('%s parses a number from %s' % (f.name, ast.unparse(n.args[0])))
+            elif isinstance(fn, ast.Name) and fn.id == 'str' and len(n.args) > 1:
+                out.append('%s decodes %s strictly' % (f.name, ast.unparse(n.args[0])))
+            elif isinstance(fn, ast.Attribute) and fn.attr == 'loads':
+                out.append('%s parses %s' % (f.name, ast.unparse(n.args[0]) if n.args else '?'))
+            else:
+                target = repo.resolve_expr(m, fn) if isinstance(fn, (ast.Name, ast.Attribute)) else None
+                if isinstance(target, list) and target and depth < 3:
+                    out.extend(_content_failures(repo, target[-1], depth + 1, seen))
+    return out
+
+
+def rule_f(ctx):
+    """C16.f  Nothing that runs on a received frame before it is dispatched can fail on the frame's content.  The
+    receive loop logs every frame first (log_frame and the per-type functions of its table); the arguments of a
+    logging call are evaluated whatever the log level, and an exception there reaches the catch-all of the receive
+    loop, which answers with APPLICATION_ERROR on the frame's stream: a SETUP is then neither accepted nor rejected
+    with its own code."""
+    rep = ctx.report
+    repo = ctx.repo
+    m = repo.module('rsocket.frame_logger')
+    if m is None or not m.functions.get('log_frame'):
+        raise AnalysisError('C16.f: rsocket.frame_logger.log_frame vanished')
+    base = ctx.slots.RSocketBase
+    hn = base.lookup('_handle_next_frame')
+    first = [n for n in walk_local(hn.node) if isinstance(n, ast.Call) and isinstance(n.func, ast.Name) and
+             n.func.id == 'log_frame'] if hn is not None else []
+    if not first:
+        raise AnalysisError('C16.f: the receive path no longer logs through log_frame')
+    fs = []
+    for name, lst in m.functions.items():
+        fs.extend(lst[-1:])
+    rep.require('C16.f', 'functions of the frame logger', len(fs), 8)
+    for f in fs:
+        bad = _content_failures(repo, f)
+        rep.add('C16.f', 'frame logger / %s cannot fail on the content of a frame' % f.name, f, not bad,
+                'no strict decoding, number parsing, positional indexing or raise in it or in what it calls' if not bad
+                else '%s: for a frame whose bytes do not fit, the exception is raised before the frame is dispatched '
+                     'and the peer gets APPLICATION_ERROR instead of the answer to its frame' % '; '.join(
+                    sorted(set(bad))))
+
+
+RULES = [('C16.a', rule_a), ('C16.b', rule_b), ('C16.c', rule_c), ('C16.d', rule_d), ('C16.b', rule_plumbing), ('C16.e', rule_e), ('C02.a', rule_setup_layout), ('C16.f', rule_f)]
